@@ -1,6 +1,7 @@
 package props
 
 import (
+	"github.com/nlnwa/whatwg-url/errors"
 	"github.com/nlnwa/whatwg-url/url"
 	"pgregory.net/rapid"
 
@@ -37,19 +38,19 @@ func modelRoundTrips(mu *spec.URL) bool {
 	return ok && v.Obs() == mu.Obs()
 }
 
-// a7Host: the host is an ACE label produced by the IDNA fallback for ≠ ≮ ≯ under STD3 rules, which
-// the parser then refuses to read back (known finding A7).
+// isA7 is the classifier of the known finding KF-*-ace-std3: the library serialized a special URL
+// whose host is pure ASCII with at least one ACE (xn--) label - i.e. something its IDNA step produced
+// or passed - and its own host parser rejects exactly that host in the domain-to-ASCII step. Three
+// ways in are known: U+2260/U+226E/U+226F through the ASCII-or-misc fallback, an STD3-disallowed ASCII
+// character next to U+0130, and a nested prefix (XN--XN--0- becomes xn--0); all are the STD3-strict
+// x/net/idna profile not being idempotent on ACE labels it let through itself.
 func isA7(u *url.Url) bool {
 	h := u.Hostname()
-	if !u.IsSpecialScheme() || h == "" {
+	if !u.IsSpecialScheme() || h == "" || !isPureASCII(h) || !spec.HasACELabel(h) {
 		return false
 	}
-	// exact classifier: the serialized host itself is rejected by the host parser although it is
-	// pure ASCII LDH with an ACE label, and decoding the ACE labels yields one of ≠ ≮ ≯
-	if _, err := url.Parse("http://" + h + "/"); err == nil {
-		return false
-	}
-	return aceDecodesToSTD3Misc(h)
+	_, err := url.Parse("http://" + h + "/")
+	return err != nil && errors.Type(err) == errors.DomainToASCII
 }
 
 func Check03(c CaseHist, r *core.Rec) {
